@@ -345,9 +345,14 @@ def client_waiting(trace_lines):
     return state, last_q
 
 
-def build_conversation(rnd, nex=6, fault_p=0.45, cfg=None, chunking=None, faults=None, pre=True, final_good=0):
-    """Grow a script with the model in the loop. Returns (Script, meta)."""
+def build_conversation(rnd, nex=6, fault_p=0.45, cfg=None, chunking=None, faults=None, pre=True, final_good=0, plan=None):
+    """Grow a script with the model in the loop. Returns (Script, meta).
+    plan: a fixed list, one entry per query the client sends ("truthful" or a fault name); while the client is
+    ESTABLISHED the refresh timer is let run out.  Replaces the random choices (a told story instead of a random one)."""
     cfg = cfg or {}
+    if plan is not None:
+        plan = list(plan)
+        nex, final_good, pre = 3 * len(plan) + 2, 0, False
     s = Script(refresh=cfg.get("refresh", rnd.choice([1, 30, 3600, 86400])),
                expire=cfg.get("expire", rnd.choice([600, 7200, 172800])),
                retry=cfg.get("retry", rnd.choice([1, 600, 7200])),
@@ -390,6 +395,12 @@ def build_conversation(rnd, nex=6, fault_p=0.45, cfg=None, chunking=None, faults
             break
         state, q = client_waiting(tr_)
         good = k >= nex
+        if plan is not None and not plan:
+            break
+        if plan is not None and (state == 1 or q is None and state not in (3,)):
+            s.wait(s.cfg[0] + 1)
+            meta["exchanges"].append("refresh-timeout")
+            continue
         if state == 1 or q is None and state not in (3,):
             # ESTABLISHED (or idle): notify, let the refresh timer fire, or misbehave
             x = rnd.random()
@@ -427,13 +438,16 @@ def build_conversation(rnd, nex=6, fault_p=0.45, cfg=None, chunking=None, faults
             s.wait(61)
             meta["exchanges"].append("timeout-noquery")
             continue
-        if not good and rnd.random() < 0.35:
+        if not good and plan is None and rnd.random() < 0.35:
             cache.mutate()
-        if not good and rnd.random() < 0.08:
+        if not good and plan is None and rnd.random() < 0.08:
             cache.new_session()
         pdus = cache.answer(q)
         f = None
-        if not good and rnd.random() < fault_p:
+        if plan is not None:
+            f = plan.pop(0)
+            f = None if f == "truthful" else f
+        elif not good and rnd.random() < fault_p:
             f = rnd.choice(faults or FAULTS)
         meta["exchanges"].append(f or "truthful")
         b = b"".join(pdus)
@@ -488,6 +502,16 @@ def build_conversation(rnd, nex=6, fault_p=0.45, cfg=None, chunking=None, faults
             deliver(cache_reset(cache.ver))
         elif f == "err_nodata":
             deliver(error_pdu(cache.ver, 2, q["raw"], b"no data"))
+        elif f == "other_version_answer":
+            # the truthful answer, every PDU in the other protocol version (router keys left out for version 0)
+            ov = 1 - cache.ver if cache.ver in (0, 1) else 0
+            saved = cache.ver
+            cache.ver = ov
+            try:
+                alt = [x for x in cache.answer(q) if not (ov == 0 and x[1] == 9)]
+            finally:
+                cache.ver = saved
+            deliver(b"".join(alt))
         elif f == "err_unsupported_ver":
             deliver(error_pdu(rnd.choice([0, 0, 1, 2]), 4, q["raw"], b""))
         elif f == "err_other":
